@@ -40,7 +40,18 @@ def gen_cases(rng, tier):
             keys = [o for o, _ in h]
             o = rng.choice(keys) if keys and rng.random() < 0.75 else gens.outcome(rng)
             nn = rng.randint(0, 12 if tier == "quick" else 30)
-            cases.append({"kind": "exactly", "h": h, "o": o, "n": nn, "k": rng.randint(0, nn)})
+            c = {"kind": "exactly", "h": h, "o": o, "n": nn, "k": rng.randint(0, nn)}
+            if rng.random() < 0.3:
+                # integral n and k given in another numeric type: accepted, and the answer is an exact Python int
+                c["argtyp"] = rng.choice(["float", "Fraction", "npint8", "npint64", "bool"])
+                if c["argtyp"] == "bool":
+                    c["n"], c["k"] = 1, rng.choice([0, 1])
+                if c["argtyp"] == "npint8" and rng.random() < 0.5:
+                    c["h"] = [[gens.q(v), 1] for v in range(1, 21)]      # a d20: 19**n leaves the int8 / int64 range quickly
+                    c["o"] = gens.q(3)
+                    c["n"] = rng.choice([3, 5, 16, 20])
+                    c["k"] = rng.choice([0, 1, 2])
+            cases.append(c)
         else:
             dice, shape = pools.gen_pool(rng, max_dice=5, max_faces=4)
             allk = [o for d in dice for o, _ in d]
@@ -71,7 +82,13 @@ def impl_run(case):
         if k == "exactly":
             h = H(gens.py_hist_dict(case["h"]))
             o = gens.py_outcome(case["o"])
-            v = h.exactly_k_times_in_n(o, case["n"], case["k"])
+            conv = int
+            if case.get("argtyp"):
+                import numpy
+                conv = {"float": float, "Fraction": Fraction, "npint8": numpy.int8, "npint64": numpy.int64, "bool": bool}[case["argtyp"]]
+            v = h.exactly_k_times_in_n(o, conv(case["n"]), conv(case["k"]))
+            if type(v) is not int:
+                return {"ok": {"NONJSON": type(v).__name__, "repr": repr(v)[:60]}}
             ref = (case["n"] @ h.eq(o)).get(case["k"], 0) if case["n"] >= 1 else (1 if case["k"] == 0 else 0)
             return {"ok": v, "cross_ok": v == ref or (case["n"] == 0)}
         if k == "appearances":
